@@ -358,7 +358,25 @@ def check_C02(ctx):
     repo_docs_job(ctx, ["Inv_C02"], [{"op": "clean"}])
 
 
+PIPELINE_INVS = ["C01", "C02", "C03", "C04", "C07", "C08", "C10", "C11", "C12", "C13", "C14", "C15", "C16", "C17"]
+
+
+def pipeline_model_checking(ctx):
+    """the state machine of Chiritori.tla driven by Layer I, checked against the predicates of Props.tla (no code)"""
+    from engine import DEFAULT_CFG
+    from vlib import base_consts
+    q = ctx.quick
+    for (nm, g) in [("block", lines_gen(5 if q else 6, 2, 2, ["R", "P"], ws=(2,))),
+                    ("unwrap", lines_gen(6 if q else 7, 2, 2, ["Ru", "R", "P"], blank=False)),
+                    ("tabs-inline", lines_gen(5 if q else 6, 2, 2, ["Ru", "P"], unit=" \t", base=1, blank=False, inline=True, max_code=3))]:
+        consts = dict(base_consts(dict(DEFAULT_CFG), [], "mc"))
+        consts.update(g["consts"])
+        consts["DMax"] = consts.pop("D")
+        ctx.mc("pipeline-" + nm, "MC_Pipeline", consts, PIPELINE_INVS, constraint="PConstraint", init="PInit", nxt="PNext")
+
+
 def check_C03(ctx):
+    pipeline_model_checking(ctx)
     block_jobs(ctx, ["Inv_C03"], [{"op": "clean"}], lite=True)
     unwrap_jobs(ctx, ["Inv_C03"], [{"op": "clean"}])
     inline_jobs(ctx, ["Inv_C03"], [{"op": "clean"}])
